@@ -13,7 +13,11 @@ from rogw.tranp.dsn.module import ModuleDSN
 from rogw.tranp.syntax.ast.path import EntryPath
 
 MAXLEN: int = int(CASE.get('n', 2))
-LAW: str = CASE.get('law', 'dsn')
+FIRST = CASE.get('p')  # first identifier fixed per process (case split)
+
+
+def first_ok(p: str) -> bool:
+	return FIRST is None or p == FIRST
 
 
 def ident(s: str) -> bool:
@@ -28,6 +32,7 @@ def renamed(s: str, x: str) -> str:
 def dsn_law(p: str, q: str, r: str) -> bool:
 	"""
 	pre: ident(p) and ident(q) and ident(r)
+	pre: first_ok(p)
 	post: _
 	"""
 	elems = [p, q, r]
@@ -93,6 +98,7 @@ def explain_relativefy(pi: int, qi: int, ri: int) -> str:
 def module_dsn_law(p: str, q: str, r: str) -> bool:
 	"""
 	pre: ident(p) and ident(q) and ident(r)
+	pre: first_ok(p)
 	post: _
 	"""
 	module = DSN.join(p, q)  # module path p.q, local names r and p (a local named like a module element)
@@ -118,6 +124,7 @@ def module_dsn_law(p: str, q: str, r: str) -> bool:
 def entry_path_law(p: str, q: str, r: str) -> bool:
 	"""
 	pre: ident(p) and ident(q) and ident(r)
+	pre: first_ok(p)
 	post: _
 	"""
 	path = EntryPath.join(p, q, r)
